@@ -3,7 +3,7 @@
 //! Views are fresh aliases (Control::source(), Copyright::header(), apt::Package::new(alias) ...)
 //! into one tree; setter sequences, clearing setters and restarts are scheduled by the simulator.
 use crate::core::driver::{key_of, Obs, Scenario, Tier, Violation};
-use crate::core::io::{gen_read_plan, ReadPlan, SimReader};
+use crate::core::io::{gen_read_plan, gen_write_plan, ReadPlan, SimReader, SimSink, WritePlan};
 use crate::core::probe;
 use crate::core::rng::Rng;
 use crate::gen::{relations as grel, text, typed};
@@ -690,6 +690,8 @@ pub enum Ev {
     Set { view: usize, row: String, arg: Arg },
     Get { view: usize, row: String },
     Restart { plan: ReadPlan },
+    /// DEP-3 only: persist the header through PatchHeader::write into a faulting sink, reload from the durable image
+    Persist { plan: WritePlan },
 }
 
 #[derive(Clone, Debug, Serialize, Deserialize)]
@@ -948,6 +950,11 @@ impl Scenario for C15 {
                 }
                 continue;
             }
+            if choice == 9 && kind == "dep3" {
+                let faulty = rng.chance(1, 3);
+                events.push(Ev::Persist { plan: gen_write_plan(rng, 120, faulty) });
+                continue;
+            }
             if choice == 9 && kind != "dep3" {
                 events.push(Ev::Restart { plan: gen_read_plan(rng, 100, false) });
                 views.clear();
@@ -1036,6 +1043,62 @@ impl Scenario for C15 {
                             obs.count("reach.second_view_of_same_paragraph");
                         }
                         l.views.insert(*out, (*para, vw));
+                    }
+                }
+                Ev::Persist { plan } => {
+                    let text = doc_text(&l);
+                    let mut sink = SimSink::new(plan);
+                    probe::at("dep3::PatchHeader::write");
+                    obs.prestate = if plan.fail_at.is_some() { "sink-fails".into() } else { "sink-ok".into() };
+                    let res = match l.views.get(&0) {
+                        Some((_, AnyView::D3(h))) => h.write(&mut sink),
+                        _ => continue,
+                    };
+                    obs.add("fault.short_write", sink.fired.short_writes);
+                    obs.add("fault.write_eintr", sink.fired.eintr);
+                    obs.add("fault.write_hard_error", sink.fired.hard_error);
+                    obs.add("fault.write_zero", sink.fired.zero);
+                    let must_fail = match &plan.fail_at {
+                        Some(c) => c.at < text.len(),
+                        None => false,
+                    };
+                    match res {
+                        Ok(()) => {
+                            if must_fail {
+                                return Err(v("io-error-masked", "PatchHeader::write", "sink-fails", format!("the sink accepts only {} of {} bytes but write returned Ok", plan.fail_at.as_ref().unwrap().at, text.len())));
+                            }
+                            if sink.durable != text.as_bytes() {
+                                return Err(v("durability", "PatchHeader::write", "sink-ok", format!("write returned Ok but the sink holds {:?}, the header prints {:?}", String::from_utf8_lossy(&sink.durable), text)));
+                            }
+                            // crash + restart: only the durable image survives
+                            obs.count("fault.restart");
+                            match dep3::lossless::PatchHeader::from_str(&text) {
+                                Ok(h) => {
+                                    let got: Vec<(String, String)> = h.as_deb822().items().collect();
+                                    if vec![got.clone()] != l.model {
+                                        return Err(v("restart-content", "PatchHeader::write", "sink-ok", format!("persisted header {:?} reloads as {:?}, expected {:?}", text, got, l.model)));
+                                    }
+                                    l.views.insert(0, (0, AnyView::D3(h)));
+                                    if any_set {
+                                        restarted_after_set = true;
+                                    }
+                                }
+                                Err(e) => {
+                                    if !l.model[0].is_empty() {
+                                        return Err(v("restart-error", "PatchHeader::write", "sink-ok", format!("persisted header {:?} does not load: {}", text, e.to_string().trim())));
+                                    }
+                                }
+                            }
+                        }
+                        Err(e) => {
+                            if !must_fail {
+                                return Err(v("io-error-spurious", "PatchHeader::write", "sink-ok", format!("no hard fault before the end (EINTR fired {} times, short writes {}) but write failed: {e}", sink.fired.eintr, sink.fired.short_writes)));
+                            }
+                            // torn write: what was accepted is a prefix, never wrong bytes
+                            if !text.as_bytes().starts_with(&sink.durable) {
+                                return Err(v("durability", "PatchHeader::write", "sink-fails", format!("after a failed write the sink holds {:?}, not a prefix of {:?}", String::from_utf8_lossy(&sink.durable), text)));
+                            }
+                        }
                     }
                 }
                 Ev::Restart { plan } => {
